@@ -313,7 +313,11 @@ fn run(ctx: &mut Ctx) {
     // (b) table level
     let pres = prestates();
     let tb = if thorough { 10 } else { 8 };
-    for opts in [&[][..], &["-U"][..]] {
+    // default and -U, and the options that are meant to change nothing about acceptance: message logging for
+    // the formats under test, counting, the downlink log, relaxed capabilities, a filter that lets them through
+    let dl = crate::run::scratch_dir().join("c04-downlink.log").to_string_lossy().into_owned();
+    let option_sets: Vec<Vec<&str>> = vec![vec![], vec!["-U"], vec!["-M", "17", "-M", "11", "-M", "18"], vec!["-U", "-M", "17", "-M", "11", "-M", "18", "-c"], vec!["-D", &dl, "-R"], vec!["-f", "18", "-f", "11", "-f", "17", "-c"]];
+    for opts in option_sets.iter().map(|o| &o[..]) {
         let cfg = Cfg::new(opts);
         for (pname, pre) in &pres {
             for (name, base) in bs.iter().take(if thorough { 8 } else { 3 }) {
